@@ -150,6 +150,22 @@ def run_case(case: dict) -> dict:
                     raised = True
                 log({"e": "add", "kind": op["kind"], "nid": nid, "gen": g,
                      "extra": list(op.get("extra", [])) if op["kind"] == "remote" else []}, raised)
+            elif o == "readd":
+                node = net.nodes.get(op["nid"])
+                if node is None:
+                    continue
+                try:
+                    if op.get("how") == "setitem":
+                        net[op["nid"]] = node
+                    elif isinstance(node, canopen.RemoteNode):
+                        net.add_node(node)
+                    else:
+                        net.create_node(node)
+                except Exception:  # noqa
+                    raised = True
+                extra = [c.tx_cobid for c in node.sdo_channels[1:]] if isinstance(node, canopen.RemoteNode) else []
+                log({"e": "add", "kind": "remote" if isinstance(node, canopen.RemoteNode) else "local", "nid": op["nid"],
+                     "gen": cur_gen[op["nid"]], "extra": extra}, raised)
             elif o == "addsdo":
                 node = net.nodes.get(op["nid"])
                 if node is None or not isinstance(node, canopen.RemoteNode):
